@@ -5,7 +5,8 @@ sys.path.insert(0, os.path.dirname(__file__))
 from common import BASE_ASSUMPTIONS  # noqa: E402
 
 RULE = ("DurationParse.tla: the duration scanner as a state machine over symbol strings (digits, signs, unit letters, a "
-        "non-unit letter, '.', ' ', a two-byte character, a 20-digit literal, the i64::MAX literal) with the grammar "
+        "non-unit letter, '.', ' ', a two-byte character, a 20-digit literal, the i64::MAX literal, the digit run 1500 for "
+        "sub-second terms that carry into whole seconds) with the grammar "
         "WellFormed / Meaning defined independently; TLC checks Total (liveness), StartLeI and Sound over every string up to "
         "the bound and over every string of a grammar-directed alphabet up to a longer bound; every string is rendered to "
         "UTF-8 and given to TimeDelta::parse / FromStr, DateTime::parse / FromStr, Time::parse under catch_unwind (a panic is "
@@ -17,10 +18,12 @@ def run(ctx):
     q = ctx.quick
     r1 = ctx.tlc("dur", "MCDuration", "MCDuration_quick.cfg" if q else "MCDuration_thorough.cfg", workers=8, timeout=3000)
     r2 = ctx.tlc("terms", "MCDuration", "MCDuration_terms.cfg" if q else "MCDuration_terms_thorough.cfg", workers=8, timeout=3000)
+    r4 = ctx.tlc("subsec", "MCDuration", "MCDuration_subsec.cfg" if q else "MCDuration_subsec_thorough.cfg", workers=8, timeout=3000)
     r3 = ctx.tlc("grid", "MCTime", "MCTime_c16.cfg", workers=4, timeout=900)
     binp = ctx.build("tvh-time")
     ctx.harness("dur", binp, ["replay-parse", "--in", r1["emitted"]])
     ctx.harness("terms", binp, ["replay-parse", "--in", r2["emitted"]])
+    ctx.harness("subsec", binp, ["replay-parse", "--in", r4["emitted"]])
     ctx.harness("roundtrip", binp, ["replay-parse", "--in", r3["emitted"]])
     ctx.assumptions += BASE_ASSUMPTIONS[:1] + [
         "for malformed duration text a value or an error are both accepted: the property fixes totality only",
